@@ -144,6 +144,15 @@ def nodeOp (n : MNode) (toks : List String) : Option (MNode × String) :=
         if n.s.closed then fin n.s "err-chan"
         else let (s', _) := n.s.writeData o.sid d; fin s' "ok"
     | _, _ => none
+  | "sendmany" :: h :: hxs =>
+    match h.toNat?, allSome (hxs.map bytesOfHex) with
+    | some h, some ds =>
+      match (n.handles[h]?).bind (fun i => (n.s.objs[i]?).map (fun o => (i, o))) with
+      | none => fin n.s "nohandle"
+      | some (_, o) =>
+        if n.s.closed then fin n.s "err-chan"
+        else fin (ds.foldl (fun s d => (s.writeData o.sid d).1) n.s) "ok"
+    | _, _ => none
   | ["feed", hx] =>
     match bytesOfHex hx with
     | some d => fin (if d.isEmpty then n.s else n.s.feedBytes d) "ok"
